@@ -32,8 +32,10 @@ var defaultIV = []byte{0xA6, 0xA6, 0xA6, 0xA6, 0xA6, 0xA6, 0xA6, 0xA6}
 
 // Wrap encrypts the provided key data (cek) with the given AES cipher (and corresponding key), using the AES Key Wrap algorithm (RFC-3394)
 func Wrap(block cipher.Block, cek []byte) ([]byte, error) {
-	if len(cek)%8 != 0 {
-		return nil, errors.New("cek must be in 8-byte blocks")
+	// The key data is at least one 8-byte block: wrapping nothing would return the bare
+	// integrity check value, which Unwrap cannot accept
+	if len(cek) == 0 || len(cek)%8 != 0 {
+		return nil, errors.New("cek must be in 8-byte blocks and not empty")
 	}
 
 	// Initialize variables
